@@ -1,5 +1,5 @@
 import GnoVerif.Base.Kit
-import GnoVerif.Model.C06Machine
+import GnoVerif.Model.C06Inv
 /-! Driver for C06: replays heap-machine scripts on the finalizer model and
 prints the abstract heap dump (see harness/cmd/c06/dump.go for the format). -/
 namespace GnoVerif.Drive.C06
@@ -64,7 +64,8 @@ def step (d : DState) (t : List String) : DState × String :=
     let cs := script.toList
     if (rl == "a" || rl == "b") && validScript cs then
       let (s', ok) := execTx d.s (if rl == "a" then 0 else 1) cs
-      ({ d with s := s' }, if ok then "ok " ++ clip (dump s') else "err")
+      let inv := match verdict s' with | none => "ok" | some v => v.str
+      ({ d with s := s' }, if ok then "ok " ++ clip (dump s') ++ " inv=" ++ inv else "err")
     else (d, "err:badop")
   | ["prog", seed, expect] =>
     if (expect == "ok" || expect == "err") && validSeed seed && !d.progs.contains seed then
